@@ -331,6 +331,9 @@ func init() {
 			if seed%3 == 0 {
 				return genC25T(seed)
 			}
+			if (seed>>1)%5 == 0 {
+				return genC25Collision(seed)
+			}
 			return c25b.Gen(seed)
 		},
 		Oracles: func(p *Plan) []Oracle {
@@ -340,4 +343,36 @@ func init() {
 			return nil
 		},
 	}
+}
+
+// genC25Collision: session control on a neighbour that has been through connection collisions
+// (several FSMs, some of them ceased): the C24 scenarios followed by stop / disposal and API
+// readers released together.
+func genC25Collision(seed uint64) *Plan {
+	pl := genC24(seed)
+	pl.Prop = "C25"
+	r := propRand("C25C", seed)
+	pl.Sim.GateProb = pick(r, []float64{0, 0.5, 1})
+	pl.Sim.Sticky = pick(r, []float64{0, 0.5})
+	// drop the final checkpoint label of C24 and add the session-control round
+	rounds := 1 + r.Intn(2)
+	for k := 0; k < rounds; k++ {
+		var sub []Step
+		for j := 0; j < 1+r.Intn(3); j++ {
+			switch r.Intn(5) {
+			case 0, 1:
+				sub = append(sub, Step{Kind: "dispose", Peer: 0})
+			case 2:
+				sub = append(sub, Step{Kind: "metrics"})
+			case 3:
+				sub = append(sub, Step{Kind: "dump_api", Peer: 0})
+			default:
+				sub = append(sub, Step{Kind: "export", Peer: 0, Policy: AcceptAll()})
+			}
+		}
+		pl.Steps = append(pl.Steps, Step{GapUS: int64(1000 + r.Intn(2_000_000)), Kind: "par", Par: sub})
+	}
+	pl.Steps = append(pl.Steps, Step{GapUS: 2_000_000, Kind: "checkpoint"})
+	pl.TailUS = 5_000_000
+	return pl
 }
